@@ -24,14 +24,14 @@ def c04(tier, seed):
 
 def c05(tier, seed):
     runs = [
-        Run("faults", "debug", ["prop=C05", "--flavours", "Tok,Tok24"], shards=4),
+        Run("faults", "debug", ["prop=C05", "--flavours", "Tok,Tok24,ZTok"], shards=4),
         Run("faults", "miri", ["prop=C05", "--flavours", "HeapTok", "--maxn", "3"], shards=16, miri_extra="-Zmiri-ignore-leaks",
             label="faults/miri(HeapTok,N<=3)"),
     ]
     if tier == "thorough":
         runs = [
-            Run("faults", "debug", ["prop=C05", "--flavours", "Tok,Tok24"], shards=8),
-            Run("faults", "release", ["prop=C05", "--flavours", "Tok,Tok24"], shards=8),
+            Run("faults", "debug", ["prop=C05", "--flavours", "Tok,Tok24,ZTok"], shards=8),
+            Run("faults", "release", ["prop=C05", "--flavours", "Tok,Tok24,ZTok"], shards=8),
             Run("faults", "miri", ["prop=C05", "--flavours", "HeapTok", "--maxn", "4"], shards=32, miri_extra="-Zmiri-ignore-leaks",
                 label="faults/miri(HeapTok,N<=4)"),
             Run("faults", "asan", ["prop=C05", "--flavours", "HeapTok"], shards=8,
